@@ -488,7 +488,7 @@ func (s *space) Run(i int64) kit.Result {
 // Functions whose integer parameters are s2 cell levels / tile zooms: the
 // output grows as 4^level, so feeding them unbounded numbers (areas, sums)
 // is a legitimately astronomically large computation, not a hang. Part (a)
-// covers them with levels {-2,0,1,3,24}; part (b) does not compose into them.
+// covers them with levels {-2,0,1,3,20}; part (b) does not compose into them.
 var levelParams = map[string]bool{"s2-grid": true, "s2-covering": true, "s2-points": true, "tile-paths": true}
 
 func product(ms [][]snip) int64 {
@@ -710,7 +710,7 @@ func build(tier string) (kit.Space, string) {
 
 	bound := fmt.Sprintf("%d registered functions; part (a): %d argument tuples against the small world (full product of the per-parameter menus, %s tier menus: every snippet of the parameter's categories + 2 ill-typed)%s + %d arity/curry variants; "+
 		"part (b): %d depth-2 compositions f(..g(good%s)..) over every type-compatible (f, parameter, g); part (c): %d malformed/edge NodeProto and EvaluateRequestProto messages; "+
-		"arity/curry variants, (b) and (c) against the small world%s; integer arguments <= 24 (s2/tile levels above that produce astronomically many cells); hang limit %v CPU",
+		"arity/curry variants, (b) and (c) against the small world%s; integer arguments <= 20 (s2 levels / tile zooms grow the output as 4^level: zoom 24 on the 100 m path is 430489 tiles); hang limit %v CPU",
 		len(s.fns), s.nA, tier, map[bool]string{true: fmt.Sprintf(" + %d tuples against the empty world (each parameter over its whole menu, the others plain)", nStar), false: ""}[thorough],
 		len(s.extra)-nStar-nB-nC, nB, map[bool]string{true: "|edge", false: ""}[thorough], nC, map[bool]string{true: " and the empty world", false: ""}[thorough], hangCPU)
 	return s, bound
@@ -732,7 +732,7 @@ func main() {
 		Assumptions: []string{
 			"requests are what proto.Unmarshal can produce from bytes (oneof wrappers never hold nil messages, repeated fields never hold nil elements)",
 			"FileIOAllowed=false (the option of api.Options that guards parse-geojson-file, import-geojson-file, changes-to-file, changes-from-file, export-world), Cores=2",
-			"a request that has not finished after 3 s of CPU time (normal: < 0.05 s) on a 14-feature world is a hang; menus exclude s2/tile levels > 24 whose legitimately exponential outputs would be indistinguishable from one",
+			"a request that has not finished after 3 s of CPU time (normal: < 0.05 s) on a 14-feature world is a hang; menus exclude s2 levels / tile zooms > 20 whose legitimately exponential outputs would be indistinguishable from one",
 		},
 		Build:            build,
 		CaseTimeout:      caseTimeout,
